@@ -1,7 +1,6 @@
 package props
 
 import (
-	"sync"
 	"encoding/base64"
 	"encoding/json"
 	"flag"
@@ -9,14 +8,15 @@ import (
 	"os"
 	"os/exec"
 	"strings"
+	"sync"
 	"syscall"
 
 	"github.com/protobom/protobom/pkg/reader"
 	"github.com/protobom/protobom/pkg/sbom"
 	"github.com/protobom/protobom/pkg/storage"
 	"github.com/protobom/protobom/pkg/writer"
-	"verifharness/internal/core"
 	"google.golang.org/protobuf/proto"
+	"verifharness/internal/core"
 )
 
 // Child processes for the storage properties (C19, C20): one Store or one Retrieve per process, executed
@@ -42,13 +42,13 @@ func unprivPreflight(c *core.C) bool {
 
 // histStep is one call of an in-process history (one FileSystem instance for the whole history).
 type histStep struct {
-	Op        string `json:"op"` // store | retrieve
-	File      string `json:"file"`
-	NoClobber bool   `json:"noclobber,omitempty"`
-	NilOpts   bool   `json:"nilopts,omitempty"`
-	Second    bool   `json:"second,omitempty"` // use a second FileSystem instance on the same directory
-	Dir       string `json:"dir,omitempty"`    // configure the instance with this directory before the call
-	Files     []string `json:"files,omitempty"` // op pstore: documents stored by concurrent calls on the one instance
+	Op        string   `json:"op"` // store | retrieve
+	File      string   `json:"file"`
+	NoClobber bool     `json:"noclobber,omitempty"`
+	NilOpts   bool     `json:"nilopts,omitempty"`
+	Second    bool     `json:"second,omitempty"` // use a second FileSystem instance on the same directory
+	Dir       string   `json:"dir,omitempty"`    // configure the instance with this directory before the call
+	Files     []string `json:"files,omitempty"`  // op pstore: documents stored by concurrent calls on the one instance
 }
 
 func cmdStoreHist(args []string) int {
